@@ -523,8 +523,28 @@ func runC10(c *Check) {
 			base := strings.Join(shape("queue"), ",")
 			for _, sf := range stateFields[1:] {
 				s := strings.Join(shape(sf), ",")
-				if s == base {
-					c.OK("C10-R5", fnShort(m)+" ⟂ lock-step("+sf+")", fnName(m), p.Pos(m.Pos()), "writes of "+sf+" mirror the writes of queue: "+base, true)
+				// the writes alternate on every path: no two writes of one slice without a write of the
+				// other in between, and no return after a write of the first without its partner
+				qW, kW := g.Select(fieldStoreTo(g, "queue")), g.Select(fieldStoreTo(g, sf))
+				var alt []*Node
+				why := ""
+				if s == base && len(qW) > 0 && len(kW) > 0 {
+					first, second, fn1, fn2 := qW, kW, "queue", sf
+					if g.PathAvoiding([]*Node{g.Entry}, nodeSet(qW), nodeSet(kW)) == nil {
+						first, second, fn1, fn2 = kW, qW, sf, "queue"
+					}
+					if pth := g.PathAvoiding(first, nodeSet(first), nodeSet(second)); pth != nil {
+						alt, why = pth, "two writes of "+fn1+" can follow one another without a write of "+fn2+" in between"
+					} else if pth := g.PathAvoiding(second, nodeSet(second), nodeSet(first)); pth != nil {
+						alt, why = pth, "two writes of "+fn2+" can follow one another without a write of "+fn1+" in between"
+					} else if pth := g.PathAvoiding(first, g.AnyExit(), nodeSet(second)); pth != nil {
+						alt, why = pth, "the function can return after writing "+fn1+" without writing "+fn2
+					}
+				}
+				if s == base && alt != nil {
+					c.Bad("C10-R5", fnShort(m)+" ⟂ lock-step("+sf+")", fnName(m), p.InstrPos(alt[0].In), why+": entry i of "+sf+" no longer belongs to batch i, so the wrong entry is deleted when a batch is handed out and a handed-out batch reappears after a restart", g.DescribePath(alt))
+				} else if s == base {
+					c.OK("C10-R5", fnShort(m)+" ⟂ lock-step("+sf+")", fnName(m), p.Pos(m.Pos()), "writes of "+sf+" mirror the writes of queue ("+base+") and alternate with them on every path", true)
 				} else {
 					c.Bad("C10-R5", fnShort(m)+" ⟂ lock-step("+sf+")", fnName(m), p.Pos(m.Pos()), "the parallel slice "+sf+" is not written in lock-step with queue (queue: "+base+"; "+sf+": "+s+"): keys and batches get out of step", nil)
 				}
